@@ -715,6 +715,7 @@ func init() {
 			c.ResolvedName("C18")
 			c.LosslessSplit("C18")
 			c.ListRuleApproves("C18")
+			c.CredentialsRequestScoped("C19") // every decision is taken under the request's own authenticated name
 			c.CheckSemantics("C07") // "permitted" is what the permission checker answers for the account's name
 			c.RegexWholeName("C07")
 			c.ThresholdRules("C12") // incl. C12.O4: an account created through Dirk reaches the cache the listing reads
